@@ -26,7 +26,7 @@ func init() {
 			}
 			return 1
 		},
-		Cases:       func(r *obs.Run) int { return 1 + r.Share(r.Pick(20000, 240000)) },
+		Cases:       func(r *obs.Run) int { return 1 + r.Share(r.Pick(20000, 6000000)) },
 		Case:        c17Case,
 		MinDistinct: func(t string) int { return 3000 },
 		Floors: func(string) map[string]int64 {
